@@ -344,6 +344,10 @@ for _p in PROPS:
             if _u['template'] == 'chain.rs':
                 _u.setdefault('exclude_obligations', []).append(r'p256::PublicKey::verify_signature::ensures\.canonical')
 
+# properties whose statement is (also) about panics / aborts: for the others a failing overflow / index / unwrap side
+# condition is reported as UNDECIDED, not as a violation of the property
+PANIC_PROPS = {'C06', 'C09', 'C10', 'C17', 'C19'}
+
 WITNESS = {
     r'Authorizer::authorize_inner::(loop\d+\.(sound|flag|all_reject|none|done)|ensures\.checks)': 'tools/replay.sh reject_if_alternatives',
     r'token::(unverified::UnverifiedBiscuit|Biscuit)::block::call-pre': 'tools/replay.sh block_index',
